@@ -5,7 +5,7 @@ use ntex_codec::{Decoder, Encoder};
 
 use crate::error::{DecodeError, EncodeError};
 use crate::types::{FixedHeader, MAX_PACKET_SIZE, packet_type};
-use crate::utils::decode_variable_length;
+use crate::utils::{decode_variable_length, truncate_pages};
 
 use super::{Decoded, Encoded};
 use super::{Packet, decode::decode_packet, encode::EncodeLtd, packet::Publish};
@@ -261,7 +261,15 @@ impl Encoder for Codec {
     type Item = Encoded;
     type Error = EncodeError;
 
-    fn encodev(&self, mut item: Self::Item, dst: &mut BytePages) -> Result<(), EncodeError> {
+    fn encodev(&self, item: Self::Item, dst: &mut BytePages) -> Result<(), EncodeError> {
+        // a failed encode must not leave a partial frame behind
+        let len = dst.len();
+        self.encode_item(item, dst).inspect_err(|_| truncate_pages(dst, len))
+    }
+}
+
+impl Codec {
+    fn encode_item(&self, mut item: Encoded, dst: &mut BytePages) -> Result<(), EncodeError> {
         // handle [MQTT 3.1.2.11.7]
         if self.flags.get().contains(CodecFlags::NO_PROBLEM_INFO) {
             match item {
